@@ -28,6 +28,7 @@ type c19world struct {
 	nextID   int32
 	failNext atomic.Bool
 	taken    map[int][]int // message id -> worker ids that took it
+	presented map[int]int  // request id -> number of HandleCall invocations
 	limit    int64
 	size     int64
 }
@@ -70,6 +71,9 @@ func (x *c19worker) HandleMessage(from gen.PID, m any) error {
 
 func (x *c19worker) HandleCall(from gen.PID, ref gen.Ref, req any) (any, error) {
 	if rq, ok := req.(c19req); ok {
+		x.w.mu.Lock()
+		x.w.presented[rq.ID]++
+		x.w.mu.Unlock()
 		return c19resp{rq.ID, x.id}, nil
 	}
 	return nil, nil
@@ -125,7 +129,7 @@ func runC19(c *Ctx) {
 	n := c.N(60, 2500)
 	_, inspector, _ := k.Spawn("inspector", false, gen.ProcessOptions{}, "")
 	for it := 0; it < n; it++ {
-		w := &c19world{workers: map[int]*c19worker{}, taken: map[int][]int{}}
+		w := &c19world{workers: map[int]*c19worker{}, taken: map[int][]int{}, presented: map[int]int{}}
 		w.size = int64(1 + c.Rng.Intn(4))
 		w.limit = int64(c.Rng.Intn(4))
 		ppid, err := k.Node.Spawn(func() gen.ProcessBehavior { return &c19pool{w: w} }, gen.ProcessOptions{})
@@ -504,7 +508,7 @@ func canonRing(s string) string {
 // c19calls: requests through a healthy pool reach exactly one worker and the reply reaches the caller that asked.
 func c19calls(c *Ctx, k *K4) {
 	r := c.R
-	w := &c19world{workers: map[int]*c19worker{}, taken: map[int][]int{}, size: 3}
+	w := &c19world{workers: map[int]*c19worker{}, taken: map[int][]int{}, presented: map[int]int{}, size: 3}
 	ppid, err := k.Node.Spawn(func() gen.ProcessBehavior { return &c19pool{w: w} }, gen.ProcessOptions{})
 	if err != nil {
 		return
